@@ -24,7 +24,7 @@ RULE = ("Hypothesis RuleBasedStateMachine (<= 40 steps): connect with a drawn SA
         "listscripts/getscript of every name agree with the store. Non-trivial = session with >= 5 operations including a NO "
         "outcome and a literal; distinct by history.")
 
-NAMES = ["main", "vacation script", "résumé", 'q"uote', "b\\s", "{3}", "trail\\", 'endq"', "ACTIVE", '\\"', "active one"]
+NAMES = ["main", "vacation script", "résumé", 'q"uote', "b\\s", "{3}", "trail\\", 'endq"', "ACTIVE", '\\"', "active one", "OK", "no"]
 MECHS = [["PLAIN"], ["LOGIN"], ["OAUTHBEARER"], ["DIGEST-MD5"], ["SCRAM-SHA-1", "LOGIN", "PLAIN"]]
 
 
